@@ -182,6 +182,18 @@ func checkC15(e *Env) {
 				}
 				_ = si
 			}
+			// one unknown token as large as the buffers of the standard library's scanners and
+			// readers, at the start, in the middle and at the end of a sentence of acceptable count
+			rh := rng.New(e.Seed, "C15-huge-"+itoa(lang))
+			for hi, size := range []int{4096, 65535, 65536, 70000} {
+				n := ref.WordCounts[(hi+lang)%5]
+				w := m.Words(rh.Bytes(n+n/3), lang)
+				for _, pos := range []int{0, n / 2, n - 1} {
+					t := append([]string(nil), w...)
+					t[pos] = strings.Repeat("k", size) + itoa(pos)
+					send(c15exp{lang: lang, s: strings.Join(t, " "), defect: "unknown", n: n, unknown: []string{t[pos]}, sub: "huge-token"})
+				}
+			}
 		}
 	}, func(it *Item, r *plan.Res) {
 		x := it.Exp.(c15exp)
